@@ -139,6 +139,31 @@ void run_program(Body&& body)
     Runner<std::remove_reference_t<Body>>::run(body);
 }
 
+/// run `f` from a destructor while an unrelated exception unwinds the stack
+/// (clean-up code using the library): everything must behave as usual
+template<class F>
+void run_in_unwind(F&& f)
+{
+    struct Guard {
+        F& fn;
+        ~Guard()
+        {
+            try {
+                fn();
+            }
+            catch (...) {
+            }
+        }
+    };
+    try {
+        Guard g{f};
+        throw gsim::injected{99, 0};
+    }
+    catch (const gsim::injected&) {
+        gsim::probe("op_run_during_unwinding");
+    }
+}
+
 inline bool prop_is(const char* id)
 {
     return std::strcmp(gsim::property(), id) == 0;
